@@ -466,7 +466,7 @@ func vfValidCase(t *rapid.T, v int, withAuth bool) (c *vfCase, want vfMap, desc 
 	doc := vfRender(s, v)
 
 	var drops []string
-	if rapid.IntRange(0, 99).Draw(t, "drop_mode") < 30 {
+	if vfChance(t, "drop_mode", 30) {
 		var slots []vfSlot
 		vfSlots(doc, "", 1, &slots)
 		var cands []vfSlot
@@ -477,7 +477,7 @@ func vfValidCase(t *rapid.T, v int, withAuth bool) (c *vfCase, want vfMap, desc 
 		}
 		n := rapid.IntRange(1, 3).Draw(t, "drop_n")
 		for i := 0; i < n && len(cands) > 0; i++ {
-			idx := rapid.IntRange(0, len(cands)-1).Draw(t, fmt.Sprintf("drop_%d", i))
+			idx := vfUniform(t, fmt.Sprintf("drop_%d", i), len(cands))
 			sl := cands[idx]
 			delete(sl.m, sl.key)
 			drops = append(drops, sl.path)
@@ -498,7 +498,7 @@ func vfValidCase(t *rapid.T, v int, withAuth bool) (c *vfCase, want vfMap, desc 
 	}
 
 	c = &vfCase{body: body, in: in, ver: v, dirs: vfNewDirs(t)}
-	c.legacyFiles = rapid.IntRange(0, 3).Draw(t, "legacy_files") == 0
+	c.legacyFiles = vfChance(t, "legacy_files", 25)
 
 	if len(drops) == 0 {
 		adv, hashOf := vfAdvance(s, v, c.dirs.data)
@@ -548,7 +548,7 @@ func vfCheckValid(t vfT, c *vfCase, want vfMap) (res vfResult) {
 func TestVFC13Valid(t *testing.T) {
 	vfkit.Begin(t)
 	rapid.Check(t, func(t *rapid.T) {
-		v := rapid.IntRange(0, vfLast).Draw(t, "version")
+		v := vfUniform(t, "version", vfLast+1)
 		c, want, desc := vfValidCase(t, v, false)
 		defer c.dirs.remove()
 
@@ -576,12 +576,12 @@ func TestVFC13Valid(t *testing.T) {
 func TestVFC13Auth(t *testing.T) {
 	vfkit.Begin(t)
 	rapid.Check(t, func(t *rapid.T) {
-		v := rapid.IntRange(0, 4).Draw(t, "version")
+		v := vfUniform(t, "version", 5)
 		c, want, desc := vfValidCase(t, v, true)
 		defer c.dirs.remove()
 		c.splits = []int{rapid.IntRange(v+1, 5).Draw(t, "split_before_or_at_5"), rapid.IntRange(5, vfLast-1).Draw(t, "split_after_5")}
 
-		hostile := rapid.SampledFrom([]string{"", "", "", "pass_null", "name_null", "name_int", "pass_list", "pass_long", "name_absent"}).Draw(t, "auth_shape")
+		hostile := vfPick(t, "auth_shape", []string{"", "", "", "pass_null", "name_null", "name_int", "pass_list", "pass_long", "name_absent"})
 		if hostile != "" {
 			doc := vfClone(c.in).(vfMap)
 			switch hostile {
@@ -638,13 +638,13 @@ var vfSchemaKinds = []string{
 func TestVFC13Shape(t *testing.T) {
 	vfkit.Begin(t)
 	rapid.Check(t, func(t *rapid.T) {
-		v := rapid.IntRange(0, vfLast).Draw(t, "version")
+		v := vfUniform(t, "version", vfLast+1)
 		s := vfDrawSettings(t, v, false)
 		doc := vfRender(s, v)
-		other := vfRender(s, rapid.IntRange(0, vfLast).Draw(t, "other_version"))
+		other := vfRender(s, vfUniform(t, "other_version", vfLast+1))
 
 		var descs []string
-		if rapid.IntRange(0, 99).Draw(t, "sparse") < 15 {
+		if vfChance(t, "sparse", 12) {
 			for _, k := range vfSortedKeys(doc) {
 				if k != "schema_version" && rapid.Bool().Draw(t, "sparse_drop_"+k) {
 					delete(doc, k)
@@ -657,10 +657,10 @@ func TestVFC13Shape(t *testing.T) {
 			descs = append(descs, vfMutate(t, doc, other, i))
 		}
 
-		kind := rapid.SampledFrom(vfSchemaKinds).Draw(t, "schema_kind")
+		kind := vfPick(t, "schema_kind", vfSchemaKinds)
 		switch kind {
 		case "other_version":
-			doc["schema_version"] = rapid.IntRange(0, vfLast).Draw(t, "claimed_version")
+			doc["schema_version"] = vfUniform(t, "claimed_version", vfLast+1)
 		case "absent":
 			delete(doc, "schema_version")
 		case "null":
@@ -697,7 +697,7 @@ func TestVFC13Shape(t *testing.T) {
 
 		c := &vfCase{body: body, in: in, ver: vfVersionOf(in), dirs: vfNewDirs(t)}
 		defer c.dirs.remove()
-		c.legacyFiles = rapid.IntRange(0, 7).Draw(t, "legacy_files") == 0
+		c.legacyFiles = vfChance(t, "legacy_files", 12)
 
 		desc := fmt.Sprintf("shape|layout=%d|claimed=%d|schema=%s|%s", v, c.ver, kind, vfSortedDescs(descs))
 		vfC13.Eval()
@@ -737,7 +737,7 @@ var vfTokens = []string{
 func TestVFC13Bytes(t *testing.T) {
 	vfkit.Begin(t)
 	rapid.Check(t, func(t *rapid.T) {
-		v := rapid.IntRange(0, vfLast).Draw(t, "version")
+		v := vfUniform(t, "version", vfLast+1)
 		s := vfDrawSettings(t, v, false)
 		body, err := yaml.Marshal(vfRender(s, v))
 		if err != nil {
@@ -748,16 +748,16 @@ func TestVFC13Bytes(t *testing.T) {
 		var descs []string
 		for i := 0; i < n; i++ {
 			l := fmt.Sprintf("edit%d_", i)
-			pos := rapid.IntRange(0, len(body)).Draw(t, l+"pos")
+			pos := vfUniform(t, l+"pos", len(body)+1)
 			if rapid.Bool().Draw(t, l+"at_line_start") {
 				// move to the start of the line
 				for pos > 0 && body[pos-1] != '\n' {
 					pos--
 				}
 			}
-			switch op := rapid.SampledFrom([]string{"insert", "insert", "delete", "replace", "truncate"}).Draw(t, l+"op"); op {
+			switch op := vfPick(t, l+"op", []string{"insert", "insert", "insert", "delete", "replace", "replace", "truncate"}); op {
 			case "insert":
-				tok := rapid.SampledFrom(vfTokens).Draw(t, l+"tok")
+				tok := vfPick(t, l+"tok", vfTokens)
 				body = append(body[:pos:pos], append([]byte(tok), body[pos:]...)...)
 				descs = append(descs, "insert:"+tok)
 			case "delete":
@@ -766,7 +766,7 @@ func TestVFC13Bytes(t *testing.T) {
 				body = append(body[:pos:pos], body[end:]...)
 				descs = append(descs, "delete")
 			case "replace":
-				tok := rapid.SampledFrom(vfTokens).Draw(t, l+"tok")
+				tok := vfPick(t, l+"tok", vfTokens)
 				end := min(len(body), pos+len(tok))
 				body = append(body[:pos:pos], append([]byte(tok), body[end:]...)...)
 				descs = append(descs, "replace:"+tok)
